@@ -206,7 +206,7 @@ Fixpoint masked_bytes (masks : list (N * N)) (cmd : N) (r : bytes) (acc : N) : o
     if N.land cmd mask =? 0 then masked_bytes ms cmd r acc
     else match r with
          | [] => None
-         | b :: r' => masked_bytes ms cmd r' (N.lor acc (N.shiftl b shift))
+         | b :: r' => masked_bytes ms cmd r' (N.lor acc (N.shiftl b shift) mod 18446744073709551616)  (* uint *)
          end
   end.
 Definition OFFSET_MASKS : list (N * N) := [(1, 0); (2, 8); (4, 16); (8, 24)].
